@@ -177,6 +177,26 @@ def _corner_position(lo, hi, corner):
     return [hi[0] if xs else lo[0], hi[1] if ys else lo[1], hi[2] if zs else lo[2]]
 
 
+def run_set_patch_list(sx):
+    """set_patch with a list of sides: every listed side gets the patch, whatever the order of the list, no other side does"""
+    box, lo, hi = _box(sx)
+    a, b, c = sx.choice("first", 6), sx.choice("second", 6), sx.choice("third", 7)
+    sides = [SIDES[a]] + ([SIDES[b]] if b != a else []) + ([SIDES[c]] if c < 6 and c not in (a, b) else [])
+    box.set_patch(list(sides), "marked")
+    box.set_patch(SIDES[(a + 3) % 6] if SIDES[(a + 3) % 6] not in sides else sides[0], "other" if SIDES[(a + 3) % 6] not in sides else "marked")
+    mesh = cb.Mesh()
+    mesh.add(box)
+    mesh.assemble()
+    sx.reach("set_patch")
+    patch = mesh.patch_list.patches.get("marked")
+    quads = [] if patch is None else [[v.position for v in sd.vertices] for sd in patch.sides]
+    sx.prove(len(quads) == len(sides), f"set_patch({sides}): one quad per listed side", "C10:set_patch:list:count",
+             info={"quads": len(quads), "sides": sides})
+    conds = [sx.any([_on_side(sx, q, side, lo, hi) for q in quads]) for side in sides]
+    sx.prove(sx.all(conds), f"set_patch({sides}): every listed side carries the patch", "C10:set_patch:list:sides")
+    return "set_patch:list"
+
+
 def run_set_patch(sx):
     box, lo, hi = _box(sx)
     s = sx.choice("side", 6)
@@ -357,6 +377,7 @@ def jobs(tier, seed):
     js = [
         {"name": "shift", "fn": "run_shift"},
         {"name": "set_patch+get_face", "fn": "run_set_patch"},
+        {"name": "set_patch with a list of sides", "fn": "run_set_patch_list"},
         {"name": "project_side", "fn": "run_project_side"},
         {"name": "project_side+edges", "fn": "run_project_side", "params": {"edges": True}},
         {"name": "project_side+points", "fn": "run_project_side", "params": {"points": True}},
